@@ -4,6 +4,7 @@
 import VsgModel.Engine.RuleRun
 import VsgModel.Engine.Relations
 import VsgModel.Check.Verdict
+import VsgProofs.Lemmas.BaseLineStruct
 import VsgProofs.Lemmas.BaseWsEffects
 import VsgProofs.Lemmas.BaseBindEffects
 import VsgProofs.Lemmas.PostPhase1
@@ -276,5 +277,298 @@ theorem postPhase1_commentSeq (blCls : Nat) (l : List Tok) :
   exact hl.commentSeq.symm
 
 /-! ### END ag_bind -/
+
+/-! ### layer B: the phase-1 line-structure base classes (≈110 rules)
+
+`CelSafe old new` (VsgModel/Base/Base.LineStruct.lean) is the context form of "the comment still ends its
+line": whatever stands before and behind the region, no `--` comment swallows code after the region
+`old` has been replaced by `new`.  (The region-local `commentEndsLine new` is too weak: a comment that
+became the LAST token of its region swallows what follows the region.) -/
+
+section LineStruct
+open Vsgm.Base.LineStruct
+open Vsgm.Base (KV pyIdx)
+
+/-- **engine**: if the violations of one `Rule.fix` are sorted, disjoint and in range and every
+    `_fix_violation` is `CelSafe` on its own region, then after `vhdlFile.update` every `--` comment
+    of the file is still followed by a line break -/
+theorem update_commentEndsLine (f : List Tok) (es : List (Edit Tok)) (h : Chain f.length 0 es)
+    (hp : ∀ e ∈ es, CelSafe (old f e) e.new) (hc : commentEndsLine f = true) :
+    commentEndsLine (update f es) = true :=
+  update_celSafe f es h hp hc
+
+/-- `CelSafe` with empty context is the region-local statement -/
+theorem celSafe_local (old new : List Tok) (h : CelSafe old new) (hc : commentEndsLine old = true) :
+    commentEndsLine new = true := by
+  have := h [] [] (by simpa using hc)
+  simpa using this
+
+/-- **line-break inserting / removing base classes** (54 rules): every comment, pragma and
+    preprocessor line is kept verbatim and in order -/
+theorem bfix_lineBreak_commentSeq (owner : String) (params action : KV) (old new : List Tok)
+    (ho : owner ∈ breakOwners ++ removeCrOwners) (h : Base.fixByOwner owner params action old = some (.ok new)) :
+    commentSeq new = commentSeq old := by
+  rw [fixByOwner_lineStruct owner params action old (layoutOwners_sub_all ho)] at h
+  exact ((dispatch_layout _ owner params action old new ho h).1.commentSeq).symm
+
+/-- **line-break inserting base classes** (insert_carriage_return_after_token…, split_line_at_token…;
+    49 rules): for every insert index (also negative, also out of range) a comment stays at the end
+    of its line, in every context -/
+theorem bfix_break_celSafe (owner : String) (params action : KV) (old new : List Tok)
+    (ho : owner ∈ breakOwners) (h : Base.fixByOwner owner params action old = some (.ok new)) :
+    CelSafe old new := by
+  have ho' : owner ∈ breakOwners ++ removeCrOwners := List.mem_append_left _ ho
+  rw [fixByOwner_lineStruct owner params action old (layoutOwners_sub_all ho')] at h
+  exact (dispatch_layout _ owner params action old new ho' h).2.1 ho
+
+/-- **remove_carriage_return_after_token** (if_035, loop_statement_005, selected_assignment_001/003/011;
+    the tree after the repair 7d29fc3: line breaks are removed only up to the first comment).  In
+    every context every comment stays at its line end, provided the region starts neither with a
+    line break nor with a `--` comment (it starts with the keyword the rule is about; each hypothesis
+    is violated by one witness of `removeCrAfter_celSafe_false`) -/
+theorem bfix_removeCrAfter_celSafe_partial (owner : String) (params action : KV) (old new : List Tok)
+    (ho : owner ∈ removeCrAfterOwners) (h : Base.fixByOwner owner params action old = some (.ok new))
+    (hstart : startsCr old = false) (hhead : endsLC (old.take 1) = false) : CelSafe old new := by
+  have ho' : owner ∈ breakOwners ++ removeCrOwners :=
+    List.mem_append_right _ (List.mem_append_left _ ho)
+  rw [fixByOwner_lineStruct owner params action old (layoutOwners_sub_all ho')] at h
+  exact (dispatch_layout _ owner params action old new ho' h).2.2.1 ho hstart hhead
+
+/-- without the two hypotheses the statement is false: a region that starts with the line break of a
+    preceding comment loses it; a whitespace inserted at index 1 lands behind a leading comment -/
+theorem removeCrAfter_celSafe_false :
+    (∃ old new, fixRemoveCrAfter Base.lineCls false old = .ok new ∧ endsLC (old.take 1) = false ∧ ¬ CelSafe old new) ∧
+    (∃ old new, fixRemoveCrAfter Base.lineCls true old = .ok new ∧ startsCr old = false ∧
+      commentEndsLine old = true ∧ commentEndsLine new = false) := by
+  refine ⟨⟨[⟨2, .cr, ['\n']⟩, ⟨9, .code, ['a']⟩], _, rfl, by decide, ?_⟩,
+    ⟨[⟨4, .comment, "-- c".toList⟩, ⟨2, .cr, ['\n']⟩, ⟨9, .code, ['a']⟩], _, rfl, by decide, by decide, by decide⟩⟩
+  intro hs
+  have := hs [⟨4, .comment, "-- c".toList⟩] [] (by decide)
+  revert this
+  decide
+
+/-- **remove_carriage_returns_between_token_pairs** (a base class no rule of the tree uses) still
+    removes EVERY line break of its region, as remove_carriage_return_after_token did before the
+    repair.  Comments stay at their line ends when the region does not start with a line break and
+    holds no `--` comment except as its very last token (exactly what `removeCr_celSafe_false`
+    violates) -/
+theorem bfix_removeCrPairs_celSafe_partial (owner : String) (params action : KV) (old new : List Tok)
+    (ho : owner ∈ removeCrPairsOwners) (h : Base.fixByOwner owner params action old = some (.ok new))
+    (hstart : startsCr old = false) (hno : ∀ t ∈ old.dropLast, isLC t = false) : CelSafe old new := by
+  have ho' : owner ∈ breakOwners ++ removeCrOwners :=
+    List.mem_append_right _ (List.mem_append_right _ ho)
+  rw [fixByOwner_lineStruct owner params action old (layoutOwners_sub_all ho')] at h
+  exact (dispatch_layout _ owner params action old new ho' h).2.2.2 ho hstart hno
+
+/-- the defect of the unrepaired fix, smallest witnesses: the region `with -- c ⏎ e` (comment inside)
+    becomes `with -- c e` — the comment swallows `e`; and the region `a -- c ⏎` (comment followed by
+    the region's last line break) becomes `a -- c`, which swallows whatever follows the region -/
+theorem removeCr_celSafe_false :
+    (∃ old new, fixRemoveCr Base.lineCls true old = .ok new ∧ commentEndsLine old = true ∧
+      commentEndsLine new = false) ∧
+    (∃ old new, fixRemoveCr Base.lineCls true old = .ok new ∧ startsCr old = false ∧ ¬ CelSafe old new) := by
+  refine ⟨⟨[⟨9, .code, "with".toList⟩, ⟨1, .ws, [' ']⟩, ⟨4, .comment, "-- c".toList⟩, ⟨2, .cr, ['\n']⟩, ⟨9, .code, ['e']⟩],
+      _, rfl, by decide, by decide⟩, ?_⟩
+  refine ⟨[⟨9, .code, ['a']⟩, ⟨4, .comment, "-- c".toList⟩, ⟨2, .cr, ['\n']⟩], _, rfl, by decide, ?_⟩
+  intro hs
+  have := hs [] [⟨9, .code, ['b']⟩] (by decide)
+  revert this
+  decide
+
+/-- the repaired fix on the same two regions: nothing is swallowed any more -/
+example :
+    fixRemoveCrAfter Base.lineCls true [⟨9, .code, "with".toList⟩, ⟨1, .ws, [' ']⟩, ⟨4, .comment, "-- c".toList⟩, ⟨2, .cr, ['\n']⟩, ⟨9, .code, ['e']⟩]
+      = .ok [⟨9, .code, "with".toList⟩, ⟨1, .ws, [' ']⟩, ⟨4, .comment, "-- c".toList⟩, ⟨2, .cr, ['\n']⟩, ⟨9, .code, ['e']⟩] := rfl
+
+/-- **single-token moves** (53 rules) — exact condition for the comment sequence: unchanged iff the
+    moved token's contribution commutes with that of the tokens it jumps over.  For
+    move_token_left_to_next_non_whitespace_token with `bRemoveTrailingWhitespace` the region must hold
+    no preprocessor token (`remove_trailing_whitespace` deletes trailing preprocessor tokens) -/
+theorem bfix_move_commentSeq_iff (owner : String) (params action : KV) (old new : List Tok)
+    (ho : owner ∈ singleMoveOwners) (h : Base.fixByOwner owner params action old = some (.ok new))
+    (hpre : owner ∈ moveLeftOwners → Base.LineStruct.needBool params "bRemoveTrailingWhitespace" = .ok true →
+      ∀ t ∈ old, t.kind ≠ .preproc) :
+    ∃ ki ii k x, moveIdx owner action = some (ki, ii) ∧ pyIdx old.length ki = some k ∧ old[k]? = some x ∧
+      (commentSeq new = commentSeq old ↔
+        commentSeq [x] ++ commentSeq (crossed old k (insPos (old.length - 1) ii)) =
+          commentSeq (crossed old k (insPos (old.length - 1) ii)) ++ commentSeq [x]) := by
+  rw [fixByOwner_lineStruct owner params action old (singleMove_sub_all ho)] at h
+  obtain ⟨ki, ii, w, k, x, hidx, fo, hw⟩ := dispatch_move _ owner params action old new ho h
+  exact ⟨ki, ii, k, x, hidx, fo.idx, fo.get, fo.commentSeq_iff (fun hh => hpre (hw hh).1 (hw hh).2)⟩
+
+/-- … in particular: moving a CODE token never changes the comment sequence -/
+theorem bfix_move_commentSeq_partial (owner : String) (params action : KV) (old new : List Tok)
+    (ho : owner ∈ singleMoveOwners) (h : Base.fixByOwner owner params action old = some (.ok new))
+    (hpre : owner ∈ moveLeftOwners → Base.LineStruct.needBool params "bRemoveTrailingWhitespace" = .ok true →
+      ∀ t ∈ old, t.kind ≠ .preproc)
+    (hx : ∀ ki ii k x, moveIdx owner action = some (ki, ii) → pyIdx old.length ki = some k → old[k]? = some x →
+      x.isCode = true) :
+    commentSeq new = commentSeq old := by
+  obtain ⟨ki, ii, k, x, hidx, hk, hget, hiff⟩ := bfix_move_commentSeq_iff owner params action old new ho h hpre
+  rw [hiff]
+  have hc : x.isCommentLike = false := by
+    have := hx ki ii k x hidx hk hget
+    unfold Tok.isCode at this; unfold Tok.isCommentLike Kind.isCommentLike
+    cases hk2 : x.kind <;> simp_all
+  simp [commentSeq, hc]
+
+/-- without the preprocessor hypothesis the statement is FALSE: `a #if ⏎ b` becomes `a b` -/
+theorem moveLeft_commentSeq_false :
+    ∃ old new, fixMoveLeft Base.lineCls true true old = .ok new ∧ commentSeq new ≠ commentSeq old :=
+  ⟨[⟨9, .code, ['a']⟩, ⟨35, .preproc, "#if".toList⟩, ⟨2, .cr, ['\n']⟩, ⟨9, .code, ['b']⟩], _, rfl, by decide⟩
+
+/-- **single-token moves**: comments stay at their line ends, in every context, when the moved
+    token is a code token, it is not moved to the very front of the region, the token it lands
+    behind is not a `--` comment, and — for move_token_left… with `bRemoveTrailingWhitespace` — the
+    region holds no `--` comment (each hypothesis is violated by one witness of
+    `move_celSafe_false`) -/
+theorem bfix_move_celSafe_partial (owner : String) (params action : KV) (old new : List Tok)
+    (ho : owner ∈ singleMoveOwners) (h : Base.fixByOwner owner params action old = some (.ok new))
+    (hx : ∀ ki ii k x, moveIdx owner action = some (ki, ii) → pyIdx old.length ki = some k → old[k]? = some x →
+      x.isCode = true ∧ 0 < insPos (old.length - 1) ii ∧
+      endsLC ((old.eraseIdx k).take (insPos (old.length - 1) ii)) = false)
+    (hno : owner ∈ moveLeftOwners → Base.LineStruct.needBool params "bRemoveTrailingWhitespace" = .ok true →
+      ∀ t ∈ old, isLC t = false) :
+    CelSafe old new := by
+  rw [fixByOwner_lineStruct owner params action old (singleMove_sub_all ho)] at h
+  obtain ⟨ki, ii, w, k, x, hidx, fo, hw⟩ := dispatch_move _ owner params action old new ho h
+  obtain ⟨h1, h2, h3⟩ := hx ki ii k x hidx fo.idx fo.get
+  exact fo.cel h1 h2 h3 (fun hh => hno (hw hh).1 (hw hh).2)
+
+/-- the known defect and its relatives, smallest witnesses:
+    (1) move_token_left… with trailing-whitespace removal and a comment between anchor and token:
+        the region `e -- c ⏎ select` becomes `e select -- c` and the comment, now the LAST token of
+        the region, swallows what follows it;
+    (2) a token moved directly behind a comment (`-- c ⏎ b`, token value 2) lands inside it -/
+theorem move_celSafe_false :
+    (∃ old new, fixMoveLeft Base.lineCls true true old = .ok new ∧ commentEndsLine old = true ∧
+      commentEndsLine new = true ∧ ¬ CelSafe old new) ∧
+    (∃ old new, fixMoveNext Base.lineCls 2 old = .ok new ∧ commentEndsLine old = true ∧
+      commentEndsLine new = false) := by
+  refine ⟨⟨[⟨9, .code, ['e']⟩, ⟨1, .ws, [' ']⟩, ⟨4, .comment, "-- c".toList⟩, ⟨2, .cr, ['\n']⟩,
+      ⟨9, .code, "select".toList⟩], _, rfl, by decide, by decide, ?_⟩,
+    ⟨[⟨4, .comment, "-- c".toList⟩, ⟨2, .cr, ['\n']⟩, ⟨9, .code, ['b']⟩], _, rfl, by decide, by decide⟩⟩
+  intro hs
+  have := hs [] [⟨1, .ws, [' ']⟩, ⟨9, .code, ['q']⟩] (by decide)
+  revert this
+  decide
+
+/-- **block_001**: comment sequence, exact condition (as for the code sequence) -/
+theorem bfix_moveSeq_commentSeq_iff (owner : String) (params action : KV) (old new : List Tok)
+    (ho : owner ∈ moveSeqOwners) (h : Base.fixByOwner owner params action old = some (.ok new)) :
+    ∃ n, Base.LineStruct.needInt action "num_tokens" = .ok n ∧
+      (commentSeq new = commentSeq old ↔
+        commentSeq (seqJumped n old) ++ commentSeq (seqMoved n old) =
+          commentSeq (seqMoved n old) ++ commentSeq (seqJumped n old)) := by
+  rw [fixByOwner_lineStruct owner params action old (moveSeq_sub_all ho)] at h
+  obtain ⟨n, hn, hf⟩ := dispatch_moveSeq _ owner params action old new ho h
+  obtain ⟨last, h1, h2, _⟩ := fixMoveSeq_spec _ n old new hf
+  refine ⟨n, hn, ?_⟩
+  rw [blind_commentSeq.layoutOnly h1, blind_commentSeq.layoutOnly h2]
+  exact swap_hom_iff commentSeq commentSeq_append _ _ _
+
+/-- block_001 keeps every comment when the moved prefix (label, colon, whitespace) holds none -/
+theorem bfix_moveSeq_commentSeq_partial (owner : String) (params action : KV) (old new : List Tok)
+    (ho : owner ∈ moveSeqOwners) (h : Base.fixByOwner owner params action old = some (.ok new))
+    (hm : ∀ n, Base.LineStruct.needInt action "num_tokens" = .ok n → ∀ t ∈ seqMoved n old, t.isCommentLike = false) :
+    commentSeq new = commentSeq old := by
+  obtain ⟨n, hn, hiff⟩ := bfix_moveSeq_commentSeq_iff owner params action old new ho h
+  rw [hiff, commentSeq_eq_nil_of_noComment _ (hm n hn)]
+  simp
+
+/-- block_001: comments stay at their line ends when the region does not start with a line break and
+    neither the moved prefix nor the part it jumps over ends in a `--` comment -/
+theorem bfix_moveSeq_celSafe_partial (owner : String) (params action : KV) (old new : List Tok)
+    (ho : owner ∈ moveSeqOwners) (h : Base.fixByOwner owner params action old = some (.ok new))
+    (hstart : startsCr old = false)
+    (hends : ∀ n, Base.LineStruct.needInt action "num_tokens" = .ok n →
+      endsLC (seqMoved n old) = false ∧ endsLC (seqJumped n old) = false) :
+    CelSafe old new := by
+  rw [fixByOwner_lineStruct owner params action old (moveSeq_sub_all ho)] at h
+  obtain ⟨n, hn, hf⟩ := dispatch_moveSeq _ owner params action old new ho h
+  obtain ⟨last, _, _, hcel⟩ := fixMoveSeq_spec _ n old new hf
+  exact hcel hstart (hends n hn).1 (hends n hn).2
+
+/-- **move_token** (5 rules): comment sequence.  `new_line`: unchanged; `new_line` with
+    `preserve_comment`: unchanged iff the trailing comment commutes with what it is moved over
+    (the tokens from the new line break to the comment) — here: when those hold no comment;
+    `move_left`: unchanged when the moved (last) token is code -/
+theorem bfix_moveToken_commentSeq_partial (owner : String) (params action : KV) (old new : List Tok)
+    (ho : owner ∈ moveTokenOwners) (h : Base.fixByOwner owner params action old = some (.ok new))
+    (hpres : ∀ i, Base.LineStruct.needAttrInt action "_ti" = .ok i →
+      ∀ t ∈ (preserveBody old).drop (insPos (preserveBody old).length i), t.isCommentLike = false)
+    (hlast : ∀ k x, pyIdx old.length (-1) = some k → old[k]? = some x → x.isCode = true) :
+    commentSeq new = commentSeq old := by
+  rw [fixByOwner_lineStruct owner params action old (moveToken_sub_all ho)] at h
+  obtain ⟨a, pc, _, _, h1, h2, h3⟩ := dispatch_moveToken _ owner params action old new ho h
+  cases hm : moveTokenMode a pc with
+  | newLine => exact ((fixSplitLine_spec _ old new (h1 hm)).1.commentSeq).symm
+  | newLinePreserve =>
+    obtain ⟨i, hi, hf⟩ := h2 hm
+    rw [fixNewLinePreserve_hom_iff commentSeq blind_commentSeq _ i old new hf,
+      commentSeq_eq_nil_of_noComment _ (hpres i hi)]
+    simp
+  | moveLeft =>
+    obtain ⟨b, hf⟩ := h3 hm
+    obtain ⟨k, x, fo⟩ := fixMoveTokenLeft_spec _ b old new hf
+    rw [fo.commentSeq_iff (by intro hh; cases hh)]
+    have hc : x.isCommentLike = false := by
+      have := hlast k x fo.idx fo.get
+      unfold Tok.isCode at this; unfold Tok.isCommentLike Kind.isCommentLike
+      cases hk2 : x.kind <;> simp_all
+    simp [commentSeq, hc]
+
+/-- **move_token**: comments stay at their line ends, in every context -/
+theorem bfix_moveToken_celSafe_partial (owner : String) (params action : KV) (old new : List Tok)
+    (ho : owner ∈ moveTokenOwners) (h : Base.fixByOwner owner params action old = some (.ok new))
+    (hstart : startsCr old = false)
+    (hpres : ∀ i, Base.LineStruct.needAttrInt action "_ti" = .ok i → 0 ≤ i ∧ i ≤ (preserveBody old).length ∧
+      (preserveTail old ≠ [] → endsLC ((preserveBody old).take (insPos (preserveBody old).length i)) = false))
+    (hlast : ∀ k x, pyIdx old.length (-1) = some k → old[k]? = some x →
+      x.isCode = true ∧ 0 < insPos (old.length - 1) 1 ∧ endsLC ((old.eraseIdx k).take (insPos (old.length - 1) 1)) = false) :
+    CelSafe old new := by
+  rw [fixByOwner_lineStruct owner params action old (moveToken_sub_all ho)] at h
+  obtain ⟨a, pc, _, _, h1, h2, h3⟩ := dispatch_moveToken _ owner params action old new ho h
+  cases hm : moveTokenMode a pc with
+  | newLine => exact (fixSplitLine_spec _ old new (h1 hm)).2
+  | newLinePreserve =>
+    obtain ⟨i, hi, hf⟩ := h2 hm
+    obtain ⟨p0, p1, p2⟩ := hpres i hi
+    exact fixNewLinePreserve_cel _ i old new hf hstart p0 p1 p2
+  | moveLeft =>
+    obtain ⟨b, hf⟩ := h3 hm
+    obtain ⟨k, x, fo⟩ := fixMoveTokenLeft_spec _ b old new hf
+    obtain ⟨q1, q2, q3⟩ := hlast k x fo.idx fo.get
+    exact fo.cel q1 q2 q3 (by intro hh; cases hh)
+
+example : CelSafe [⟨4, .comment, "-- c".toList⟩] [⟨4, .comment, "-- c".toList⟩] := fun _ _ h => h
+
+/-- non-vacuity of `bfix_move_celSafe_partial`: `architecture ␣ -- c ⏎ ␣ rtl`, token value 5 — a code
+    token is moved to index 1 behind a code token; the comment keeps its line break -/
+example :
+    let a : Tok := ⟨9, .code, "architecture".toList⟩
+    let k : Tok := ⟨4, .comment, "-- c".toList⟩
+    let n : Tok := ⟨2, .cr, ['\n']⟩
+    let w : Tok := ⟨1, .ws, [' ']⟩
+    let x : Tok := ⟨9, .code, "rtl".toList⟩
+    let old := [a, w, k, n, w, x]
+    fixMoveNext Base.lineCls 5 old = .ok [a, mkWs Base.lineCls, x, w, k, n, w] ∧
+    x.isCode = true ∧ 0 < insPos (old.length - 1) 1 ∧ endsLC ((old.eraseIdx 5).take (insPos (old.length - 1) 1)) = false := by
+  intro a k n w x old; exact ⟨rfl, by decide, by decide, by decide⟩
+
+/-- non-vacuity of `bfix_removeCrAfter_celSafe_partial`: `with ⏎ ␣ e ␣ -- c ⏎ x` — the line break in
+    front of the comment goes, the one behind it stays -/
+example :
+    let a : Tok := ⟨9, .code, "with".toList⟩
+    let e : Tok := ⟨9, .code, ['e']⟩
+    let k : Tok := ⟨4, .comment, "-- c".toList⟩
+    let n : Tok := ⟨2, .cr, ['\n']⟩
+    let w : Tok := ⟨1, .ws, [' ']⟩
+    let old := [a, n, w, e, k, n, e]
+    fixRemoveCrAfter Base.lineCls true old = .ok [a, w, e, k, n, e] ∧ startsCr old = false ∧
+    endsLC (old.take 1) = false := by
+  intro a e k n w old; exact ⟨rfl, by decide, by decide⟩
+
+end LineStruct
 
 end Vsgm.C02
